@@ -96,7 +96,8 @@ fn cmd_http(d: &Desc) -> Command<Effect, Event> {
             "PATCH" => CHttp::patch(&d.url), "OPTIONS" => CHttp::options(&d.url), "TRACE" => CHttp::trace(&d.url), _ => CHttp::connect(&d.url),
         }
     };
-    for op in &d.ops { b = apply_builder!(b, op).expect("replay histories hold accepted descriptions only"); }
+    for op in &d.ops[..d.split] { b = apply_builder!(b, op).expect("replay histories hold accepted descriptions only"); }
+    if d.split < d.ops.len() { b = b.middleware(Stage2(d.ops[d.split..].to_vec())); }
     b.build().then_send(Event::Http)
 }
 struct Stage2(Vec<Op>);
